@@ -45,3 +45,23 @@ Theorem c03_a_propagation_ends_quiet :
        (J w q -> Quiet (WorldFrame.res_world (flush beh q w)))).
 Proof. exact flush_Q. Qed.
 Print Assumptions c03_a_propagation_ends_quiet.
+
+(* the cursor invariant INSIDE a propagation, for every handler behaviour and from any state: ReserveInv w = the
+   cursor is where NextKeyIter stands after predicting, on the current entity map, as many ids as are reserved - the
+   precondition under which spawn_all creates exactly the ids handed out (c03_promised_ids_are_exactly_the_ids_created).
+   It is kept by every single delivery (handlers reserving ids, Insert/Remove moving entities, Spawn/Despawn
+   materialising) ... *)
+Theorem c03_cursor_invariant_kept_by_every_delivery :
+  forall (beh : hinfo -> logent -> N -> script) (it : qitem) (w : world),
+    ReserveInv w -> elen (snd (fst (deliver_one beh it w))) < U32MAX -> snd (deliver_one beh it w) = None ->
+    ReserveInv (snd (fst (deliver_one beh it w))).
+Proof. exact deliver_one_RI. Qed.
+Print Assumptions c03_cursor_invariant_kept_by_every_delivery.
+
+(* ... and by a whole propagation, completed or cut short by a panic *)
+Theorem c03_cursor_invariant_kept_by_a_propagation :
+  forall (beh : hinfo -> logent -> N -> script) (q : list qitem) (w : world),
+    ReserveInv w -> ~ NoUB.ubf (EvLedger.res_fail (flush beh q w)) -> elen (WorldFrame.res_world (flush beh q w)) < U32MAX ->
+    EvLedger.res_fail (flush beh q w) <> Some (FPanic 8) -> ReserveInv (WorldFrame.res_world (flush beh q w)).
+Proof. exact flush_RI. Qed.
+Print Assumptions c03_cursor_invariant_kept_by_a_propagation.
